@@ -221,3 +221,38 @@ pub fn run(case: &ACase) -> Option<String> {
     }
     None
 }
+
+/// C13 for the async dispatcher: `setup` reaches every ordinary and every thread-local system exactly once per call
+pub fn setup_run(plan: &Case) -> Option<String> {
+    let ctx = Ctx::new();
+    let mut b = Builder::new();
+    b.add_pool(pool());
+    let mut uid = 0;
+    for op in &plan.ops {
+        if catch_unwind(AssertUnwindSafe(|| apply(&mut b, op, &mut uid, &ctx))).is_err() {
+            return None;
+        }
+    }
+    let infos = crate::real::infos(plan);
+    let mut d = b.build_async(World::empty());
+    for call in ["first", "second"] {
+        ctx.take();
+        d.setup();
+        let evs = ctx.take();
+        for i in &infos {
+            if i.kind == Kind::Sys || i.kind == Kind::Tl {
+                let n = evs.iter().filter(|e| e.uid == i.uid && e.k == EvK::Setup).count();
+                if n != 1 {
+                    return Some(format!(
+                        "the {} call of AsyncDispatcher::setup called the setup of {} #{} {} times, expected exactly once",
+                        call,
+                        if i.kind == Kind::Tl { "thread-local system" } else { "system" },
+                        i.uid,
+                        n
+                    ));
+                }
+            }
+        }
+    }
+    None
+}
